@@ -515,8 +515,10 @@ func (d *dm) refreshAndCheck(where string, faulty bool) {
 	if rule != "" {
 		e.r.Failf(rule, sig, "%s", msg)
 	}
-	// Refresh() result: non-nil iff some Spec file is in error; nil when all is well
-	if !d.auto && len(opts.TolPaths) == 0 {
+	// Refresh() result: non-nil iff some Spec file is in error; nil when all is well.
+	// In auto mode the call comes after quiescence and reports the errors of the
+	// watcher's last refresh, so the same holds.
+	if len(opts.TolPaths) == 0 && !opts.SkipErrors {
 		must := truth.MustErr()
 		may := truth.ConflictParticipants()
 		if len(must) > 0 && refreshErr == nil {
